@@ -69,6 +69,8 @@ type snap struct {
 
 	ConnReqNum uint64  `json:"conn_request_num"`
 	ptr        uintptr // identity of the RequestCtx (reuse statistics only)
+	// result of a Read issued after the body stream had returned EOF, if it was not (0, io.EOF) again
+	readAfterEOF string
 }
 
 // comparable renders the snapshot for the fresh-server differential. ConnRequestNum is
@@ -214,17 +216,22 @@ func (w *world) handle(ctx *fasthttp.RequestCtx) {
 			}
 			sn.Body = sb.String()
 		}
+		if p.MutMask&(1<<23) != 0 {
+			// one more Read after EOF, as io.Copy after io.ReadAll or a wrapping reader would do:
+			// an exhausted body must keep answering EOF
+			var one [16]byte
+			if n, err := bs.Read(one[:]); n != 0 || err != io.EOF {
+				sn.readAfterEOF = fmt.Sprintf("n=%d err=%v", n, err)
+			}
+		}
 	} else {
 		sn.Body = string(ctx.PostBody())
 		if bs := ctx.Request.BodyStream(); bs != nil {
 			io.Copy(io.Discard, bs) //nolint:errcheck
 		}
 	}
-	if isForm || spec == nil {
-		sn.Post = kvs(ctx.PostArgs().All())
-	} else {
-		sn.Post = [][2]string{}
-	}
+	// (PostArgs parses the body only for a form content type, which only the form kind carries)
+	sn.Post = kvs(ctx.PostArgs().All())
 	sn.HeadersAfter = kvs(ctx.Request.Header.All())
 
 	// ---- mutate every part
@@ -753,12 +760,9 @@ func freshSnapshot(conf srvConf, m *msgSpec, frag string) (*snap, string) {
 }
 
 // rereadsStreamAfterEOF: the handler program of m reads the chunked body stream directly up to EOF
-// (read modes 1, 2), keeps the stream attached (no SetBody), makes the content type a form (bit 6) and
-// then calls ctx.PostArgs() (bit 10), which reads the request body stream once more.
+// (read modes 1, 2) and then calls Read on it once more (bit 23).
 func rereadsStreamAfterEOF(conf srvConf, m *msgSpec) bool {
-	mm := m.Prog.MutMask
-	return conf.Stream && (m.Kind == "chunked" || m.Kind == "bigchunked") && m.Prog.ReadMode > 0 &&
-		mm&(1<<6) != 0 && mm&(1<<10) != 0 && mm&(1<<7) == 0
+	return conf.Stream && (m.Kind == "chunked" || m.Kind == "bigchunked") && m.Prog.ReadMode > 0 && m.Prog.MutMask&(1<<23) != 0
 }
 
 func classOfHistory(h *history) (string, bool) {
@@ -829,27 +833,39 @@ func runHistory(r *mon.Run, i int, h *history) {
 		//  * a ContinueHandler rejection answered 417 without Connection: close (judgeWire sets rejectAt),
 		//  * a handler that read a chunked request stream to EOF and then caused another read of it
 		//    (ctx.PostArgs() on a form content type re-reads the still attached stream).
-		poisonAt, poisonKey, poisonWhat := -1, "", ""
-		if v.rejectAt >= 0 {
-			poisonAt, poisonKey = v.rejectAt, "continuehandler-reject-keepalive"
-			poisonWhat = fmt.Sprintf("message %d had its expectation rejected by ContinueHandler and was answered 417 without Connection: close", poisonAt)
+		type poison struct {
+			at        int
+			key, what string
 		}
+		var poisons []poison // ascending by message index
 		for j, m := range cr.spec.Msgs {
-			if poisonAt >= 0 && j >= poisonAt {
-				break
+			if j == v.rejectAt {
+				poisons = append(poisons, poison{j, "continuehandler-reject-keepalive",
+					fmt.Sprintf("message %d had its expectation rejected by ContinueHandler and was answered 417 without Connection: close", j)})
+				break // nothing is dispatched normally after it
 			}
 			if rereadsStreamAfterEOF(h.Conf, m) {
+				evidence := ""
 				dispatched := false
 				for _, sn := range cr.snaps {
 					if sn.Tag == m.Tag {
 						dispatched = true
 					}
 				}
+				// ...and that extra Read did not answer (0, io.EOF): it went on parsing the connection
+				eaten := false
+				for _, sn := range cr.snaps {
+					if sn.Tag == m.Tag && sn.readAfterEOF != "" {
+						eaten = true
+						evidence = sn.readAfterEOF
+					}
+				}
 				if dispatched {
-					poisonAt, poisonKey = j, "chunked-stream-read-after-eof-consumes-next-request"
-					poisonWhat = fmt.Sprintf("the handler of message %d (%s, chunked, StreamRequestBody) read the body stream to EOF and then called ctx.PostArgs(), which reads the stream again", j, m.Tag)
 					ev["stream_reread_after_eof"]++
-					break
+				}
+				if eaten {
+					poisons = append(poisons, poison{j, "chunked-stream-read-after-eof-consumes-next-request",
+						fmt.Sprintf("the handler of message %d (%s, chunked, StreamRequestBody) read the body stream to EOF and then called Read on it once more, which returned %s instead of EOF", j, m.Tag, evidence)})
 				}
 			}
 		}
@@ -908,9 +924,12 @@ func runHistory(r *mon.Run, i int, h *history) {
 		reported := map[string]bool{}
 		for _, a := range v.anomalies {
 			key := a.key
-			if poisonAt >= 0 && a.msgIdx > poisonAt && key != "panic" {
-				key = poisonKey
-				a.what = poisonWhat + "; afterwards: " + a.what
+			for x := len(poisons) - 1; x >= 0 && key != "panic"; x-- {
+				if a.msgIdx > poisons[x].at { // the nearest such message before the anomaly
+					key = poisons[x].key
+					a.what = poisons[x].what + "; afterwards: " + a.what
+					break
+				}
 			}
 			if reported[key] {
 				continue
